@@ -119,3 +119,22 @@ Example C07_example :
                (Sgn true (Sgn false (Sgn true (Lit 2)))) in
   ok e /\ denote e = Some 9 /\ evaluate_expression (map inj (print e)) = EOk 9.
 Proof. cbv zeta. split; [cbn; lia|]. split; [reflexivity|]. vm_compute. reflexivity. Qed.
+
+(* D33: an ;assert comment that stands between a label and its instruction is kept as a comment line of its own by the
+   parser's label states (it used to be consumed without leaving a line, so its condition was never evaluated);
+   eval_assertions then treats it like every other ;assert line *)
+Theorem C07_assert_in_label_section_kept :
+  forall p c, t_typ (p_nt p) = tokComment -> t_val (p_nt p) = c -> has_prefix (s2t ";assert") c = true ->
+    exists p', parse_step PLabels p = (p', Some PLabels) /\
+               p_lines p' = p_lines p ++ [mkSL (p_line p) 0 lineComment [] [] [] [] [] [] c 0].
+Proof.
+  intros p c Ht Hv Hp. cbn [parse_step]. rewrite Ht, Hv. eexists. split; [reflexivity|].
+  unfold pnext, p_label_comment. cbn [p_eof p_toks]. destruct (p_eof p); [cbn [p_lines]; rewrite Hp; reflexivity|].
+  destruct (p_toks p); cbn [p_upd p_lines]; rewrite Hp; reflexivity.
+Qed.
+Print Assumptions C07_assert_in_label_section_kept.
+Example assert_behind_a_label_line :
+  compile_warrior (mkCfg 2 8000 8000 80000 8000 8000 100 100) (s2t "lbl" ++ [10%N] ++ s2t ";assert 0" ++ [10%N] ++ s2t "dat 0" ++ [10%N]) = CErr /\
+  compile_warrior (mkCfg 2 8000 8000 80000 8000 8000 100 100) (s2t "lbl:" ++ [10%N] ++ s2t ";assert lbl+1" ++ [10%N] ++ s2t "dat 0" ++ [10%N])
+    = COk [mkI DAT mF 0 IMMEDIATE 0 DIRECT] 0 (mkPM [] [] []).
+Proof. split; vm_compute; reflexivity. Qed.
